@@ -29,8 +29,8 @@ PROPS = {
         "explanation": "Decides: exit status is tested (code == Some(0)) before an output is accepted; nothing is recorded for a failed execution (history written only under Ok(Ok(_)) of join, error types carry no history); cancel is forwarded on every failing path; a Cancel packet stops the dependent; one error per failed thread, none for cancelled ones; errors carry the failing path; CommandLineOutput.code / success are the process's own exit status, unaltered. Not decided: content correctness of independent rules (C01).",
     },
     "C05": {
-        "rules": ["C05.R1", "C03.R2", "C03.R4", "C05.R3", "C04.R3", "C05.R5", "C12.R5", "C12.R6"],
-        "explanation": "Decides the channel protocol that makes build/clean terminate: exactly one packet per edge per return path, receivers drained completely, all spawns before any join and every handle joined. Not decided: acyclicity of the runtime wait-for graph (sorter output).",
+        "rules": ["C05.R1", "C03.R2", "C03.R4", "C05.R3", "C04.R3", "C05.R5", "C12.R5", "C12.R6", "C12.R4"],
+        "explanation": "Decides the channel protocol that makes build/clean terminate: exactly one packet per edge per return path, receivers drained completely, all spawns before any join and every handle joined; the sub-index a dependent is wired with is a position in the producer's own target list (an out-of-range one panics the producer's thread). Not decided: acyclicity of the runtime wait-for graph (sorter output).",
     },
     "C06": {
         "rules": ["C06.R1", "C06.R3", "C06.R3b", "C09.R3", "C12.R1", "C05.R1", "C05.R3", "C01.R2", "C18.R2", "C01.R5"],
